@@ -197,3 +197,15 @@ PROPS["C05"] = {
     "outside": "writes accepted by the primary during the synchronisation; several rotated op-log files (C12); restart of the primary between departure and return (C16); both nodes share one data directory in the model (the joiner's own op-log is not read)",
     "assumptions": ["environment shims", "the joiner's last operation time equals the primary's newest record at departure"],
 }
+
+PROPS["C16"] = {
+    "level": "model_checking",
+    "harnesses": [
+        {"name": "c16_history", "params": {"quick": {"steps": 4, "prefix": 0}, "thorough": {"steps": 5, "prefix": 0}}, "covers": ["restart.log-kept", "restart.log-discarded"], "budget_s": {"quick": 900, "thorough": 7200}},
+        {"name": "c16_history_persisted", "fn": "c16_history", "params": {"quick": {"steps": 4, "prefix": 1}, "thorough": {"steps": 5, "prefix": 1}}, "covers": ["restart.log-kept", "restart.log-discarded"], "budget_s": {"quick": 900, "thorough": 7200}},
+    ],
+    "bounds": {"quick": "all histories of 4 steps from {create-db da, create-db db, first / repeated write of keys k0 k1 k2, snapshot da, snapshot db, restart (clean = safe_shutdown first, or kill)} on a node booted the way start_db does, with the real replication loop writing the op-log; from an empty data directory and from a persisted first phase (da exists, holds k0, snapshotted); at every restart every record of the kept log is decoded through the restarted node's id maps and compared with what it meant to the node that wrote it; key ids and database ids in use are pairwise distinct after every step",
+               "thorough": "5 steps"},
+    "outside": "kills in the middle of one of the file writes of key-id registration / key-map write / flag update (restarts happen between operations; C11 covers intra-snapshot crash points); rotated op-log files",
+    "assumptions": ["in-memory file system shim", "environment shims"],
+}
